@@ -35,7 +35,10 @@ def run(ctx):
         "ring is not proved - the tie is a test of the theorem's premises and conclusion under that reading.",
         "Only Hermitian inputs (hermitian=True). Inputs with H_0 = 0 are rejected by the library (ValueError) and excluded. "
         "Exact arithmetic only: SymPy Gaussian rationals and exact-float (dyadic, energies in {0,1,2}) dense/sparse inputs; "
-        "floating-point rounding on generic inputs is outside the statement.",
+        "floating-point rounding on generic inputs is outside the statement. One toleranced family: numerical H_0 given as an "
+        "unsorted diagonal with a degenerate level in a fully diagonalised block, decimal (non-dyadic) levels and entries; "
+        "the implementation's float output is converted exactly and char-poly / RS coefficients are compared up to 1e-9 "
+        "relative to the largest reference coefficient (gaps >= 0.4, N <= 3, rounding ~1e-15).",
     ]
     ctx.proof("Props/C04.v")
     ctx.tie("k_charpoly", k_charpoly.tie_charpoly)
@@ -69,6 +72,10 @@ def replay(rp):
         if "expected" in g:
             print("  expected (coefficients of x^0..x^N, [re, im]):", g["expected"])
             print("  observed                                     :", g["observed"])
+            if case.get("approx"):  # generic-float family: also show decimals
+                from fractions import Fraction as Fr
+                fl = lambda poly: [complex(float(Fr(a)), float(Fr(b))) for a, b in poly]
+                print("  as floats: expected", fl(g["expected"]), "observed", fl(g["observed"]))
         if g.get("detail"):
             print(g["detail"])
     return 1
